@@ -46,3 +46,9 @@ add('C13', 'Hypothesis-generated meshes (lattice / Delaunay with holes / structu
     'unnamed sets, element id maps). All structured sizes 2..6 are enumerated; everything else is sampled.',
     'Input meshes are valid by construction; the checker-side Exodus writer follows the layout of optimism/test/patch_2_blocks.exo; '
     'coordinates of structured meshes are compared to 1e-13 (numpy vs jax linspace).')
+add('C03', 'Hypothesis-generated meshes x element order 1-5 x bubble x rule degree x cartesian/axisymmetric; reference-model oracle (checker-side conical-product Gauss rule, analytic monomials)',
+    'Generated search: partition of unity, exact interpolation of every monomial up to the element order (values and gradients at checker-computed physical '
+    'quadrature points), volume sum, exact integration of every monomial up to the rule degree (one less in axisymmetric mode), and the divergence theorem '
+    'over the closed boundary including holes, for distorted/graded/rotated meshes. Sampling of meshes; the monomial basis settles all polynomials by linearity.',
+    'Reference integrals from a 10x10 Gauss-Legendre conical product rule written in numpy; coordinates are centred and scaled so tolerances (1e-10) are relative; '
+    'a degree-q rule is required to integrate p*r only for deg p <= q-1.')
